@@ -310,7 +310,7 @@ func runC14(r *Run) {
 			r.Fail("C14.1", pr.typ, "", "converter pair not found: "+pr.enc+" / "+pr.dec)
 			continue
 		}
-		ea, da := w.A(ef), w.A(df)
+		ea, da := w.AU(ef), w.A(df)
 		erel := builtFields(ea, 0) // wire field -> domain paths (p0.X)
 		drel := builtFields(da, 0) // domain field -> wire paths (p0.g)
 		// coverage
@@ -363,7 +363,7 @@ func runC14(r *Run) {
 			r.Fail("C14.1", k+"SparseProof", "", "codec methods not found")
 			continue
 		}
-		ma, ua := w.A(mf), w.A(uf)
+		ma, ua := w.AU(mf), w.A(uf)
 		// encoder: the field relation of the value passed to json.Marshal (built inline or by a helper)
 		var erel map[string]map[string]bool
 		for _, c := range ma.CallsTo("json.Marshal") {
@@ -476,7 +476,7 @@ func runC14(r *Run) {
 	if mf == nil || uf == nil {
 		r.Fail("C14.3", "consensus-message", "", "codec methods not found")
 	} else {
-		ma, ua := w.A(mf), w.A(uf)
+		ma, ua := w.AU(mf), w.A(uf)
 		for _, v := range []struct{ field, marshal, unmarshal string }{
 			{"ProposedHeader", "tmjson.MarshalCodec.MarshalProposedHeader", "tmjson.MarshalCodec.UnmarshalProposedHeader"},
 			{"PrevoteProof", "tmjson.MarshalCodec.MarshalPrevoteProof", "tmjson.MarshalCodec.UnmarshalPrevoteProof"},
